@@ -24,6 +24,7 @@ func init() {
 	verifRegister("VerifC12_CorruptedLong", VerifC12_CorruptedLong)
 	verifRegister("VerifC02_H5_CorruptedSegments", VerifC02_H5_CorruptedSegments)
 	verifRegister("VerifC03_LongJunk", VerifC03_LongJunk)
+	verifRegister("VerifC12_NeighbourTimes", VerifC12_NeighbourTimes)
 	verifRegister("VerifC02_H7_LongJunk", VerifC02_H7_LongJunk)
 }
 
@@ -339,3 +340,53 @@ func VerifC03_LongJunk() {
 }
 
 func VerifC02_H7_LongJunk() { VerifC03_LongJunk() }
+
+// C12, the neighbours' times: "every other segment is delivered exactly as
+// it would have been without the corruption" includes the time an MSM
+// message is reported with, which follows the handler's history.  An MSM
+// frame A, a victim MSM frame of the same constellation whose payload
+// (timestamp included: 30 symbolic bits) was altered so that its CRC fails,
+// then an MSM frame B: B must be reported with the type, bytes, time and
+// start of week that the handler reports for A directly followed by B.
+func VerifC12_NeighbourTimes() {
+	c := verifParam("constellation", 0, 3)
+	msgType := uint64([]int{1077, 1097, 1087, 1127}[c])
+	mk := func(ts uint64) []byte {
+		p := make([]byte, 10)
+		c07SetBits(p, 0, 12, msgType)
+		c07SetBits(p, 12, 12, 5)
+		c07SetBits(p, 24, 30, ts)
+		return p
+	}
+	// Tuesday noon, in each constellation's own terms (GLONASS: day 2)
+	tsA, tsB := uint64(2*86400000+43200000), uint64(2*86400000+43201000)
+	if c == 2 {
+		tsA, tsB = 2<<27|54000000, 2<<27|54001000
+	}
+	a, b := vfFrame(mk(tsA)), vfFrame(mk(tsB))
+	// the victim: symbolic timestamp and filler, the CRC of the result with
+	// its last bit flipped (so it never matches)
+	vp := verifBytes("v", 10)
+	c07SetBits(vp, 0, 12, msgType)
+	victim := vfFrame(vp)
+	victim[len(victim)-1] ^= 1
+	verifWitness("reached")
+	h1 := New(verifTimeOf(vfTuesdayNoon), slog.LevelInfo)
+	ma, _ := h1.GetMessage(a)
+	mv, _ := h1.GetMessage(victim)
+	mb, _ := h1.GetMessage(b)
+	h2 := New(verifTimeOf(vfTuesdayNoon), slog.LevelInfo)
+	_, _ = h2.GetMessage(a)
+	wb, _ := h2.GetMessage(b)
+	verifWitness("handled")
+	if ma == nil || mv == nil || mb == nil || wb == nil {
+		verifAssert("messages-delivered", false)
+		return
+	}
+	verifAssert("victim-is-non-rtcm-with-its-bytes", verifAnd(mv.MessageType < 0, verifBytesEq(mv.RawData, victim)))
+	verifAssert("neighbour-type", mb.MessageType == wb.MessageType)
+	verifAssert("neighbour-bytes", verifBytesEq(mb.RawData, wb.RawData))
+	verifAssert("neighbour-error-text", verifStrEq(mb.ErrorMessage, wb.ErrorMessage))
+	verifAssert("neighbour-time", verifStrEq(mb.SentAt, wb.SentAt))
+	verifAssert("neighbour-start-of-week", verifStrEq(mb.StartOfWeek, wb.StartOfWeek))
+}
